@@ -234,3 +234,69 @@ def _base_bounds(f, decl, depth):
     if steps <= {'--', '-='}:
         return None, hi
     return None, None
+
+
+def def_guards(f, decl, def_index, use_pt):
+    """conditional edges (cond, k) that every path from definition `def_index` of local `decl` to use_pt must take when it
+    does not pass another definition of the same variable (those paths would carry another value)."""
+    defs = rd.local_defs(f, decl)
+    d = defs[def_index]
+    if d['point'] is None:
+        return []
+    others = [x['point'] for i, x in enumerate(defs) if i != def_index and x['point'] is not None]
+    out = []
+    for blk in f.cfg.blocks.values():
+        if blk.cond is None or len(blk.succ) != 2 or None in blk.succ:
+            continue
+        cp = f.cfg.point_of(blk.cond)
+        if cp is None:
+            continue
+        # the branch lies on every def-clear path from the definition to the use
+        if f.cfg.exists_path(d['point'], use_pt, avoid=others + [cp]):
+            continue
+        if not f.cfg.exists_path(d['point'], cp, avoid=others):
+            continue
+        endp = (blk.id, len(blk.el))
+        ok = []
+        for k in (0, 1):
+            if f.cfg.exists_path(endp, use_pt, avoid=others, src_inclusive=True,
+                                 edge_filter=lambda bb, kk, b=blk.id, k=k: not (bb == b and kk != k)):
+                ok.append(k)
+        if len(ok) == 1:
+            out.append((blk.cond, ok[0]))
+    return out
+
+
+def bounds_from_guards(f, decl, guards, depth=0):
+    """(lo, hi) for local `decl` implied by a list of (cond, k) comparisons with bounded expressions"""
+    lo, hi = None, None
+    for cond, k in guards:
+        cs = f.s(f.strip_casts(cond))
+        if not cs or cs['k'] != 'BinaryOperator' or cs.get('op') not in ('<', '<=', '>', '>=', '==', '!='):
+            continue
+        l, r = f.s(f.strip_casts(cs['ch'][0])), f.s(f.strip_casts(cs['ch'][1]))
+        op = cs['op']
+        if r and r['k'] == 'DeclRefExpr' and r.get('d') == decl and not (l and l['k'] == 'DeclRefExpr' and l.get('d') == decl):
+            op = {'<': '>', '<=': '>=', '>': '<', '>=': '<=', '==': '==', '!=': '!='}[op]
+            other = cs['ch'][0]
+        elif l and l['k'] == 'DeclRefExpr' and l.get('d') == decl:
+            other = cs['ch'][1]
+        else:
+            continue
+        ob = interval(f, other, f.cfg.point_of(cond), depth + 1)
+        if ob is None:
+            continue
+        if k == 1:
+            op = {'<': '>=', '<=': '>', '>': '<=', '>=': '<', '==': '!=', '!=': '=='}[op]
+        if op == '<':
+            hi = ob[1] - 1 if hi is None else min(hi, ob[1] - 1)
+        elif op == '<=':
+            hi = ob[1] if hi is None else min(hi, ob[1])
+        elif op == '>':
+            lo = ob[0] + 1 if lo is None else max(lo, ob[0] + 1)
+        elif op == '>=':
+            lo = ob[0] if lo is None else max(lo, ob[0])
+        elif op == '==':
+            lo = ob[0] if lo is None else max(lo, ob[0])
+            hi = ob[1] if hi is None else min(hi, ob[1])
+    return lo, hi
